@@ -81,6 +81,14 @@ fn main() {
                 std::process::exit(2);
             };
             if replay.is_none() {
+                // scratch is wiped at the start of every run; replay files of
+                // the previous run are kept one generation (replay.prev)
+                let keep = ctx.work.join("replay");
+                let prev = ctx.root.join("work").join(format!("{id}.replay.prev"));
+                if keep.exists() {
+                    let _ = std::fs::remove_dir_all(&prev);
+                    let _ = std::fs::rename(&keep, &prev);
+                }
                 crate::core::wipe_dir(&ctx.work);
             } else {
                 let _ = std::fs::create_dir_all(&ctx.work);
